@@ -738,7 +738,7 @@ class BaseBackend(CodeGen):
         # ``step % store_step == t0`` (the previous formulation) silently
         # produces zero stored samples whenever ``t0 >= store_step``.
         for i in range(steps):
-            if i % store_step == 0:
+            if i % store_step == 0 and idx < store_steps:
                 state_rec[idx, :] = y
                 idx += 1
             step = i + t0
@@ -766,7 +766,7 @@ class BaseBackend(CodeGen):
         # solve ivp via Heun's method.  See `_solve_euler` for the rationale
         # behind the iteration-counter-based storage condition.
         for i in range(steps):
-            if i % store_step == 0:
+            if i % store_step == 0 and idx < store_steps:
                 state_rec[idx, :] = y
                 idx += 1
             step = i + t0
